@@ -389,14 +389,12 @@ class _PatchingASTWalker:
             return self.source[start : quote_pos + len(quote_char)]
 
         def end_quote_char():
-            possible_quotes = [
-                (self.source.source.rfind(q, start, end), q)
-                for q in reversed(QUOTE_CHARS)
-            ]
-            _, quote_pos, quote_char = max(
-                (len(q), pos, q) for pos, q in possible_quotes if pos != -1
-            )
-            return self.source[end - len(quote_char) : end]
+            # only the characters that end the literal count; a triple quote
+            # elsewhere in its text is just text
+            for quote in QUOTE_CHARS[:2]:
+                if self.source.source.endswith(quote, start, end):
+                    return quote
+            return self.source[end - 1 : end]
 
         QUOTE_CHARS = ['"""', "'''", '"', "'"]
         offset = self.source.offset
